@@ -626,6 +626,9 @@ func (rule *RuleExpression) checkIfCondition(str *String, workflowKey string) {
 	} else {
 		src := str.Value + "}}" // }} is necessary since lexer lexes it as end of tokens
 		line, col := str.Pos.Line, str.Pos.Col
+		if str.Quoted {
+			col++ // skip the opening quote like checkExprsIn does
+		}
 
 		p := NewExprParser()
 		expr, err := p.Parse(NewExprLexer(src))
